@@ -30,7 +30,7 @@ ASSUMPTIONS = [
     "the same exception class in every process",
 ]
 REQUIRED_COUNTERS = ["documents", "processes", "outputs.compared", "numbered_class_docs", "aimed_docs",
-                     "cli.compared", "json.compared", "seeds.distinct"]
+                     "cli.compared", "json.compared", "seeds.distinct", "orders.reversed_and_solo"]
 
 
 def plan(tier):
@@ -66,6 +66,22 @@ def aimed_doc(rng, serial):
     for name in rng.sample(["first", "second", "third"], k=rng.randint(1, 3)):
         counter += 1
         root["properties"][name] = obj(counter)
+    # equally titled, differently bodied objects under DIFFERENT sub-schema keywords of one schema
+    holder = {}
+    for key in rng.sample(["properties", "patternProperties", "dependencies", "items", "contains",
+                           "additionalProperties", "propertyNames", "additionalItems"], k=rng.randint(2, 5)):
+        counter += 1
+        if key == "properties":
+            holder[key] = {"inner": obj(counter)}
+        elif key == "patternProperties":
+            holder[key] = {"^x": obj(counter)}
+        elif key == "dependencies":
+            holder[key] = {"dep": obj(counter)}
+        elif key == "items":
+            holder[key] = [obj(counter)] if rng.random() < 0.5 else obj(counter)
+        else:
+            holder[key] = obj(counter)
+    root["properties"]["holder"] = holder
     kinds = rng.sample(["string", "integer", "number", "boolean", "null", "array"], k=rng.randint(1, 6))
     for idx, kind in enumerate(kinds):
         root["properties"][f"k{idx}"] = {"type": kind}
@@ -100,6 +116,13 @@ for path in sys.argv[2:]:
         rec["imports"] = text.split("\n\n\n")[0].count(",") + 1 if text else 0
     except Exception as exc:
         rec["py"] = "raises:" + type(exc).__name__
+    try:
+        from statham.schema.parser import parse_element
+        from statham.serializers import serialize_python
+        bare = parse_element(materialize(RefDict.from_uri(path + "#/"), context_labeller=title_labeller()))
+        rec["pe"] = hashlib.sha256((serialize_python(bare) + json.dumps(serialize_json(bare), default=repr)).encode("utf8", "surrogatepass")).hexdigest()
+    except Exception as exc:
+        rec["pe"] = "raises:" + type(exc).__name__
     try:
         elements = parse(materialize(RefDict.from_uri(path + "#/"), context_labeller=title_labeller()))
         doc = serialize_json(*elements)
@@ -155,20 +178,32 @@ def run_shard(ctx):
     results = {}
     seeds = ctx.params["seeds"]
     for pos, seed in enumerate(seeds):
-        results[f"{seed}#{pos}"] = run_seed(directory, paths, seed)
+        # process instances also differ in what they handled before: odd processes take the documents in
+        # reverse order (the output for a document must not depend on the process's history)
+        ordered = paths if pos % 2 == 0 else list(reversed(paths))
+        results[f"{seed}#{pos}{'r' if pos % 2 else ''}"] = run_seed(directory, ordered, seed)
         ctx.count("processes")
+    if paths:
+        # and one fresh process per document for the first few
+        for path in paths[:2]:
+            solo = run_seed(directory, [path], seeds[0])
+            for label in list(results):
+                pass
+            results.setdefault("solo", {}).update(solo)
+            ctx.count("processes")
+        ctx.count("orders.reversed_and_solo")
     ctx.count("seeds.distinct", len(set(seeds)))
     for doc, path in zip(docs, paths):
         ctx.count("documents")
         ctx.evaluation()
-        recs = {label: res[path] for label, res in results.items()}
+        recs = {label: res[path] for label, res in results.items() if path in res}
         case = {"files": doc["files"], "entry": doc["entry"]}
         first = next(iter(recs.values()))
         if first.get("numbered") or first.get("imports", 0) >= 3:
             ctx.nontrivial(canon(doc["files"]))
         if first.get("numbered"):
             ctx.count("numbered_class_docs")
-        for field in ("py", "json", "names"):
+        for field in ("py", "json", "names", "pe"):
             outputs = {}
             for label, rec in recs.items():
                 outputs.setdefault(json.dumps(rec.get(field)), []).append(label)
